@@ -48,6 +48,12 @@ pub struct FnDirective {
     pub tryinto_as: Option<String>,
     /// R16 for path calls (opt-in, `//@ call-as <callee path> <fn>`): `<callee path>(args)` -> `<fn>(args)`; same justification
     pub call_as: Vec<(String, String)>,
+    /// R28 (opt-in, `//@ method-as <method> <fn>`): every method call `RECV.<method>(ARGS)` (no turbofish) of the fn body is rewritten to the path
+    /// call `<fn>(RECV, ARGS)`. <fn> is a shim of the template whose external body is `recv.<method>(args)` itself (executed code unchanged) and
+    /// whose contract is the ASSUMED specification of a std method this Verus has no specification for and cannot be given one
+    /// (`Iterator::chain` / `Iterator::cloned`: a second `external_trait_specification` on `Iterator` is a definition cycle, `assume_specification`
+    /// is refused for trait methods). Unlike R19 the STRUCTURE of the expression stays under proof: RECV and ARGS are visited as usual.
+    pub method_as: Vec<(String, String)>,
     /// R8 (opt-in, `//@ allow-unsafe`): `unsafe { B }` -> `{ B }`, and `use core::arch::..::X;` items directly inside such a block are
     /// deleted so that the intrinsic name `X` resolves to the template's shim model of it (the unit's stated modelling assumption)
     pub allow_unsafe: bool,
@@ -75,6 +81,11 @@ pub struct FnDirective {
     /// R27 (opt-in, `//@ full-range-mut-as-slice`): `&mut v[..]` -> `v.as_mut_slice()`. `impl IndexMut<RangeFull> for Vec<T>` forwards to the slice
     /// impl, which returns the whole slice: the same `&mut [T]` as `Vec::as_mut_slice` (vstd specifies the latter, not the former).
     pub full_range_mut: bool,
+    /// R28 (opt-in, `//@ expr-as <replacement expression>` followed by `//@|` lines quoting the EXPECTED expression): R19 for an expression that is not
+    /// the initialiser of a `let` (e.g. a call argument): the unique expression of the body whose whitespace-stripped source text equals the quoted
+    /// text is replaced by <replacement expression> (a call of a template helper whose external body is that text and whose contract is the ASSUMED
+    /// specification of the iterator chain). vx refuses (exit 2) when no expression, or more than one, has that text.
+    pub expr_as: Vec<LetAs>,
 }
 
 /// R24 (opt-in, `//@ map-collect-loop <k> [iter=<name>] [src=<name>] [ty=<T>]`): the k-th expression (visiting order) of the form
@@ -215,6 +226,7 @@ enum Target {
     MapFold,
     MapCollect(usize),
     FoldLoop,
+    ExprAs(usize),
     ExpectBody,
     None,
 }
@@ -249,6 +261,7 @@ fn parse_fn_block(name_line: &str, lines: &[(bool, String)]) -> FnDirective {
                 Target::MapFold => f.map_fold.as_mut().unwrap().lines.push(l.clone()),
                 Target::MapCollect(k) => f.map_collect[k].lines.push(l.clone()),
                 Target::FoldLoop => f.fold_loop.as_mut().unwrap().lines.push(l.clone()),
+                Target::ExprAs(k) => f.expr_as[k].expect.push(l.clone()),
                 Target::ExpectBody => f.expect_body.push(l.clone()),
                 Target::None => die(&format!("raw line without target: {}", l)),
             }
@@ -283,6 +296,13 @@ fn parse_fn_block(name_line: &str, lines: &[(bool, String)]) -> FnDirective {
                     _ => die("call-as needs <callee path> <fn>"),
                 }
             }
+            "method-as" => {
+                let mut it = rest.split_whitespace();
+                match (it.next(), it.next()) {
+                    (Some(a), Some(b)) => curfn!().method_as.push((a.to_string(), b.to_string())),
+                    _ => die("method-as needs <method> <fn>"),
+                }
+            }
             "let-as" => {
                 let (var, call) = match rest.split_once(char::is_whitespace) {
                     Some((v, c)) if !c.trim().is_empty() => (v.to_string(), c.trim().to_string()),
@@ -310,6 +330,14 @@ fn parse_fn_block(name_line: &str, lines: &[(bool, String)]) -> FnDirective {
                 }
                 curfn!().map_fold = Some(MapFold { var, iter_name, ty, lines: vec![] });
                 tgt = Target::MapFold;
+            }
+            "expr-as" => {
+                if rest.is_empty() {
+                    die("expr-as needs <replacement expression>");
+                }
+                let f = curfn!();
+                f.expr_as.push(LetAs { var: String::new(), nth: 1, call: rest.to_string(), expect: vec![] });
+                tgt = Target::ExprAs(f.expr_as.len() - 1);
             }
             "hoist-items" => curfn!().hoist_items = true,
             "full-range-mut-as-slice" => curfn!().full_range_mut = true,
